@@ -64,17 +64,15 @@ impl<const N: usize, T: Send + Sync> ConIterOfArray<N, T> {
         RawChunk::new(ptr, len)
     }
 
+    /// Moves the elements at positions `left_len..N` out of the array.
+    ///
+    /// The caller must make sure that these elements are never touched through the array again.
     unsafe fn split_off_right(&self, left_len: usize) -> Vec<T> {
         debug_assert!(left_len <= N);
 
-        let man_array = &mut *self.array.get();
-        let mut array = ManuallyDrop::take(man_array);
-
-        let mut vec = Vec::from_raw_parts(array.as_mut_ptr(), N, 0);
-        let right_vec = vec.split_off(left_len);
-
-        *man_array = ManuallyDrop::new(array);
-        right_vec
+        let array = &mut *self.array.get();
+        let ptr = array.as_mut_ptr();
+        (left_len..N).map(|i| ptr.add(i).read()).collect()
     }
 }
 
@@ -187,6 +185,8 @@ impl<const N: usize, T: Send + Sync> ConcurrentIter for ConIterOfArray<N, T> {
     fn into_seq_iter(self) -> Self::SeqIter {
         let current = self.counter().current();
         let remaining_vec = unsafe { self.split_off_right(current.min(N)) };
+        // the remaining elements are moved out: drop must not see them again
+        self.counter().store(N);
         remaining_vec.into_iter()
     }
 
